@@ -94,6 +94,17 @@ def install(I):
         return NotImplemented
     I.models['method.keys'] = m_keys
 
+    def m_values(ctx, recv, args, kwargs, f):
+        if isinstance(recv, SymMap) and not args:
+            # the values in key order; one per key only when the keys the map was built from are distinct (else later entries win)
+            i, j = z3.Int(I.reg.fresh('vi')), z3.Int(I.reg.fresh('vj'))
+            a = recv.keys.cols[0]
+            I.oblige("%s/model/dict.values-of-a-map-with-distinct-keys" % ctx.speckey,
+                     z3.ForAll([i, j], z3.Implies(z3.And(i >= 0, i < j, j < recv.keys.length), z3.Select(a, i) != z3.Select(a, j))), 'pre')
+            return recv.vals
+        return NotImplemented
+    I.models['method.values'] = m_values
+
     def m_update(ctx, recv, args, kwargs, f):
         if isinstance(recv, (SymMap, CombinedMap)) and isinstance(args[0], (SymMap, CombinedMap)):
             lib.rebind(ctx, f, CombinedMap(recv, args[0]))
